@@ -14,6 +14,16 @@ COLUMN_KEYS = ["name", "type", "size", "references", "unique", "nullable", "defa
 TABLE_LIST_KEYS = ["checks", "index", "partitioned_by", "columns"]
 
 
+REDECLARE = [
+    "CREATE TABLE {n} (a int);\nCREATE TABLE IF NOT EXISTS {n} (a int, b text);",
+    "CREATE TABLE IF NOT EXISTS {n} (a int PRIMARY KEY);\nCREATE TABLE IF NOT EXISTS {n} (a int PRIMARY KEY);\nALTER TABLE {n} ADD c int;",
+    "DROP TABLE {n};\nCREATE TABLE IF NOT EXISTS {n} (a int PRIMARY KEY, b varchar(10));",
+    "DROP TABLE {s}.{n};\nCREATE TABLE {s}.{n} (a int, PRIMARY KEY (a));\nCREATE INDEX ix_rd ON {s}.{n} (a);",
+    "CREATE TABLE {s}.{n} (a int);\nCREATE TABLE {n} (b int);\nCREATE TABLE {s}.{n} (c int);",
+    "CREATE TABLE {n} (a int);\nDROP TABLE {n};\nCREATE TABLE {n} (a int, b int UNIQUE);\nALTER TABLE {n} ADD PRIMARY KEY (a);",
+]
+
+
 @st.composite
 def config(draw):
     return {"output_mode": draw(st.sampled_from(universe.MODES)), "normalize_names": draw(st.booleans()), "group_by_type": draw(st.booleans())}
@@ -28,6 +38,12 @@ def gen_case(draw, nconf):
         from .c13 import ORPHANS
 
         blocks = blocks + [{"k": "raw", "c": {"family": "orphan", "text": draw(st.sampled_from(ORPHANS))}}]
+    if draw(st.integers(0, 7)) == 0:
+        # the same table id declared more than once in one script (re-creation after DROP, IF NOT EXISTS re-runs, same name in
+        # two schemas): every entry reported must still have the documented shape
+        n, s = draw(gen.plain_ident(min_len=2)), draw(gen.plain_ident(min_len=2))
+        text = draw(st.sampled_from(REDECLARE)).replace("{n}", n + "_rd").replace("{s}", s)
+        blocks = blocks + [{"k": "raw", "c": {"family": "redeclare", "text": text}}]
     return {"src": "gen", "blocks": blocks, "layout": draw(gen.layout(max_len=40)), "configs": [draw(config()) for _ in range(nconf)]}
 
 
@@ -44,7 +60,7 @@ class C12(Prop):
     id = "C12"
     rule = ("case = generated script of 1..3 blocks of any statement kind (core / constraint / nested-type / dialect-clause / "
             "extended-option tables, ALTER and INDEX histories, DROP, LIKE, sequences, types, domains, schemas, databases, "
-            "tablespaces, SET) or a regression-corpus script, each under k drawn configurations of (15 output modes x "
+            "tablespaces, SET; one script in eight declares the same table id more than once) or a regression-corpus script, each under k drawn configurations of (15 output modes x "
             "normalize_names x group_by_type), json_dump checked for each; thorough sweeps every corpus script over all 60 "
             "configurations; predicate: list of dicts (dict of lists when grouped), table entries carry table_name, schema|dataset, "
             "primary_key (list of str, subset of the column names for generated tables), columns, alter (dict), checks, index, "
@@ -137,6 +153,8 @@ class C12(Prop):
         # corpus and not for 're-spelled' tables, whose clauses may name another identifier than the column)
         generated = case["src"] == "gen" and not any(b["k"] == "rtable" for b in case["blocks"])
         out.label("src:" + case["src"])
+        if case["src"] == "gen" and any(b["k"] == "raw" and b["c"].get("family") == "redeclare" for b in case["blocks"]):
+            out.label("table_declared_twice")
         rich = generated and any(b["k"] in ("ctable", "alter", "dtable", "xtable") for b in case["blocks"])
         for cfg in case["configs"]:
             r = loader.try_parse(ddl, **cfg)
